@@ -135,7 +135,12 @@ func (c *Ctx) resolveAnchors() {
 			}
 			var cands []*ssa.Function
 			for _, fn := range c.ModFuncs {
-				if fn.Parent() != nil || fn.Object() == nil || fn.Object().Exported() || c.relPkg(fn) != sp.Pkg || recvName(fn) != sp.Recv {
+				if fn.Parent() != nil || fn.Object() == nil || c.relPkg(fn) != sp.Pkg || recvName(fn) != sp.Recv {
+					continue
+				}
+				// an anchor may come back under an exported name the pinned tree does not have (getAttrsKeys
+				// published as AttrTypes); an exported function of the pinned tree has a role of its own
+				if fn.Object().Exported() && pinnedExported[c.FuncName(fn)] {
 					continue
 				}
 				if inlineAnchors[fn.Name()] || isPkgInitName(fn.Name()) || c.aliasTarget[fn] != "" {
